@@ -151,8 +151,8 @@ func (c c18Case) resolved(host string) ([]string, bool) {
 			return h.Addrs, true
 		}
 	}
-	if _, err := netip.ParseAddr(host); err == nil {
-		return []string{host}, true
+	if a, err := netip.ParseAddr(host); err == nil {
+		return []string{a.String()}, true // the resolver reports literals in canonical form
 	}
 	return nil, false
 }
@@ -543,6 +543,13 @@ func c18Gen(t *rapid.T, maxDials int) c18Case {
 	}
 	if rapid.Bool().Draw(t, "literal") {
 		c.Targets = append(c.Targets, "203.0.113.7:8080")
+	}
+	if rapid.Bool().Draw(t, "mixedcase") {
+		// addresses as net/http hands them to the dialer: the host keeps the case of the target URL
+		c.Targets = append(c.Targets, "Unmapped.Example.C18.test:8443", "[FD00:AB::1]:8080")
+		if len(c.Hosts) > 0 {
+			c.Targets = append(c.Targets, strings.ToUpper(c.Hosts[0].Name[:1])+c.Hosts[0].Name[1:]+":443")
+		}
 	}
 	c.Targets = rapid.Permutation(c.Targets).Draw(t, "targets")
 	if rapid.Bool().Draw(t, "single") {
